@@ -19,6 +19,7 @@ import time
 import traceback
 import hashlib
 import inspect
+import copy
 import warnings
 
 import numpy as np
@@ -755,6 +756,9 @@ class Runner:
     # -- one path
     def path(self, ctx):
         job = self.job
+        r = self.res
+        # counters as they stood before this path (a path that is retried must not be counted twice)
+        self._before = (r.obligations, r.discharged, r.sat, r.unknown, copy.deepcopy(r.sites), len(r.violations), len(r.unconfirmed), len(r.errors))
         S.NP.fresh_empty = job.fresh_empty
         S.NP.linalg.exact = job.lstsq_exact
         live = job.build(ctx)
@@ -807,6 +811,9 @@ class Runner:
                     pass
             if 'wall-clock' in (pr.detail or '') and getattr(pr, 'first_attempt', False):
                 res.paths -= 1
+                if getattr(self, '_before', None) is not None:
+                    (res.obligations, res.discharged, res.sat, res.unknown, res.sites, nv, nu, ne) = self._before
+                    del res.violations[nv:], res.unconfirmed[nu:], res.errors[ne:]
                 return 'retry'
             res.budget += 1
             return
